@@ -80,6 +80,30 @@ def check_state(ck, cfg, attr):
         if abs(tot[i]) > 1e-12:
             ck.violation("settings:%s:normalised-power-nonzero" % fam, {"cfg": cfg, "i": i, "power": float(tot[i])}, replay={"cfg": cfg})
             break
+    # settings queries are pure: asking again, in another order, on the object that has already been queried above gives
+    # exactly what a fresh object gives (memoised tables that are edited in place, stale caches)
+    qs = (("usps", lambda o: [float(x) for x in o.get_feat_usps()]), ("ueg@0.3", lambda o: [float(x) for x in o.ueg_vector(0.3)]),
+          ("nfeat", lambda o: int(o.nfeat)), ("ueg@2", lambda o: [float(x) for x in o.ueg_vector(2.0)]),
+          ("norms", lambda o: [featalg.norm_kind(n) for n in (o.nldf_settings.get_reasonable_normalizer() if o.nldf_settings is not None and not o.nldf_settings.is_empty else [])]
+           + [featalg.norm_kind(n) for n in (o.sdmx_settings.get_reasonable_normalizer() if o.sdmx_settings is not None and not o.sdmx_settings.is_empty else [])]))
+
+    def snap(o, order):
+        out = {}
+        for k in order:
+            try:
+                out[qs[k][0]] = qs[k][1](o)
+            except Exception as ex:
+                out[qs[k][0]] = "raise:" + type(ex).__name__
+        return out
+    fresh = featalg.realize(cfg)[1]
+    a = snap(fresh, range(len(qs)))
+    b = snap(st, reversed(range(len(qs))))
+    c = snap(st, range(len(qs)))
+    for other, nm in ((b, "used-object-reversed-order"), (c, "used-object-third-pass")):
+        bad = [k for k in a if a[k] != other[k]]
+        if bad:
+            ck.violation("settings:%s:query-not-pure:%s" % (fam, bad[0]), {"cfg": cfg, "which": nm, "fresh": a[bad[0]], "used": other[bad[0]]}, replay={"cfg": cfg})
+            break
 
 
 PLANVAL = {"alpha0": {"neg": -0.1, "zero": 0.0, "pos": 0.01}, "lambd": {"lt1": 0.9, "eq1": 1.0, "gt1": 1.8},
